@@ -218,8 +218,17 @@ impl GrantTTLTracker {
         }
     }
 
-    /// Persist all grants to the store.
+    /// Persist all grants to the store in plaintext (names the secrets; prefer `persist_sealed`).
     pub fn persist(&self, store: &TensorStore) -> Result<()> {
+        self.persist_sealed(store, |b| Ok(b.to_vec()))
+    }
+
+    /// Persist all grants, passing the serialized table through `seal` (encryption) first.
+    pub fn persist_sealed(
+        &self,
+        store: &TensorStore,
+        seal: impl Fn(&[u8]) -> Result<Vec<u8>>,
+    ) -> Result<()> {
         // Collect grants while holding the lock, then release it
         let grants: Vec<PersistedGrant> = {
             let heap = self.heap.lock().unwrap();
@@ -240,6 +249,7 @@ impl GrantTTLTracker {
 
         let data = serde_json::to_vec(&grants)
             .map_err(|e| VaultError::CryptoError(format!("Failed to serialize TTL grants: {e}")))?;
+        let data = seal(&data)?;
 
         let mut tensor = tensor_store::TensorData::new();
         tensor.set(
@@ -256,6 +266,15 @@ impl GrantTTLTracker {
     /// Load grants from the store.
     /// Returns a new tracker with the loaded grants.
     pub fn load(store: &TensorStore) -> Result<Self> {
+        Self::load_sealed(store, |b| Ok(b.to_vec()))
+    }
+
+    /// Load grants persisted with `persist_sealed`; a table that `open` cannot decrypt is
+    /// read as legacy plaintext.
+    pub fn load_sealed(
+        store: &TensorStore,
+        open: impl Fn(&[u8]) -> Result<Vec<u8>>,
+    ) -> Result<Self> {
         let tracker = Self::new();
 
         let Ok(tensor) = store.get(TTL_STORAGE_KEY) else {
@@ -268,6 +287,8 @@ impl GrantTTLTracker {
             return Ok(tracker);
         };
 
+        let opened = open(data).unwrap_or_else(|_| data.clone());
+        let data = &opened;
         let grants: Vec<PersistedGrant> = serde_json::from_slice(data).map_err(|e| {
             VaultError::CryptoError(format!("Failed to deserialize TTL grants: {e}"))
         })?;
